@@ -322,11 +322,16 @@ struct PlainCount {
     steps: usize,
     state: Vec<f64>,
     drop_at: usize,
+    slow: bool,
     rx: Option<std::sync::mpsc::Receiver<mini_mcmc::stats::ChainStats>>,
 }
 impl MarkovChain<f64> for PlainCount {
     fn step(&mut self) -> &Vec<f64> {
         self.steps += 1;
+        if self.slow {
+            // several transitions per reporting period: the worker attempts periodic sends
+            std::thread::sleep(std::time::Duration::from_millis(350));
+        }
         if self.steps == self.drop_at {
             self.rx = None; // the listener goes away in the middle of the worker's run
         }
@@ -342,13 +347,14 @@ pub fn fault(args: &[String]) {
     let (nc, nd) = (c["nc"].as_u64().unwrap() as usize, c["nd"].as_u64().unwrap() as usize);
     let drop_at = c["drop_at"].as_u64().unwrap() as usize; // 0 = before the run, total + 1 = after
     let (tx, rx) = std::sync::mpsc::channel();
-    let mut ch = PlainCount { id: 3, steps: 0, state: vec![0.0], drop_at, rx: if drop_at == 0 { None } else { Some(rx) } };
+    let slow = c["slow"].as_bool().unwrap_or(false);
+    let mut ch = PlainCount { id: 3, steps: 0, state: vec![0.0], drop_at, slow, rx: if drop_at == 0 { None } else { Some(rx) } };
     let mut why = vec![];
     match catch(|| run_chain_progress(&mut ch, nc, nd, tx)) {
         Err(p) => why.push(format!("panic: {p}")),
         Ok(Err(e)) => why.push(format!("Err: {e}")),
         Ok(Ok(out)) => {
-            let mut plain = PlainCount { id: 3, steps: 0, state: vec![0.0], drop_at: usize::MAX, rx: None };
+            let mut plain = PlainCount { id: 3, steps: 0, state: vec![0.0], drop_at: usize::MAX, slow: false, rx: None };
             let want = run_chain(&mut plain, nc, nd);
             if out != want {
                 why.push("draws differ from run_chain's".into());
